@@ -512,7 +512,9 @@ fn declare(
 			let return_type = match return_type
 			{
 				Some(return_type) => return_type.generate(llvm)?,
-
+				// The entry point always hands an exit status to its caller.
+				None if flags.contains(DeclarationFlag::Main) =>
+				unsafe { LLVMInt32TypeInContext(llvm.context) },
 				None =>
 				unsafe { LLVMVoidTypeInContext(llvm.context) },
 			};
@@ -721,6 +723,17 @@ impl Generatable for FunctionBody
 		else
 		{
 			unsafe {
+				// An entry point without a return value exits with status 0.
+				let block = LLVMGetInsertBlock(llvm.builder);
+				let function = LLVMGetBasicBlockParent(block);
+				let function_type = LLVMGetElementType(LLVMTypeOf(function));
+				let return_type = LLVMGetReturnType(function_type);
+				if LLVMGetTypeKind(return_type)
+					== LLVMTypeKind::LLVMIntegerTypeKind
+				{
+					LLVMBuildRet(llvm.builder, LLVMConstInt(return_type, 0, 0));
+					return Ok(());
+				}
 				LLVMBuildRetVoid(llvm.builder);
 			};
 		}
